@@ -14,6 +14,8 @@ CONSTANTS
   ModE = 200
   LateFactor = 2
   Seed = 1
+  NWide = 6000
+  CheckFixed = TRUE
   CexScale = 12
 INIT Init
 NEXT Next
